@@ -132,15 +132,20 @@ ScnH == [Scn("H", <<"v0", "p1", "p2", "s0">>,
 \* scenario S with out-of-band queues of ONE message: every way a register / unregister message can be refused
 ScnT == [qcap |-> 1] @@ [ScnS EXCEPT !.id = "T"]
 
-ScnInThread == {ScnA, ScnB, ScnC, ScnD, ScnE, ScnF, ScnH}
+\* one-shot requests: the call-back unregisters its request (scenarios A, B and S again)
+ScnA1 == [oneshot |-> {"r0"}] @@ [ScnA EXCEPT !.id = "A1"]
+ScnB1 == [oneshot |-> {"r0", "r1"}] @@ [ScnB EXCEPT !.id = "B1"]
+ScnS1 == [oneshot |-> {"r0"}] @@ [ScnS EXCEPT !.id = "S1"]
+
+ScnInThread == {ScnA, ScnB, ScnC, ScnD, ScnE, ScnF, ScnH, ScnA1, ScnB1}
 ScnBin == {ScnG}
-ScnQueue == {ScnQ, ScnR, ScnS}
+ScnQueue == {ScnQ, ScnR, ScnS, ScnS1}
 ScnAll == ScnInThread \cup ScnBin \cup ScnQueue
 
-ScnQuick == {ScnA, ScnB, ScnR, ScnH}
+ScnQuick == {ScnA, ScnB, ScnR, ScnH, ScnA1, ScnB1}
 ScnQuickQ == {ScnR}
 ScnThorIn == ScnInThread
-ScnThorQ == {ScnQ, ScnR, ScnS}
+ScnThorQ == {ScnQ, ScnR, ScnS, ScnS1}
 ScnFull == {ScnT}
 ScnOnlyA == {ScnA}
 ScnOnlyD == {ScnD}
